@@ -224,10 +224,14 @@ Transfer(D, old, oattr, new, a) ==
 (* B.1  checkpoint.rs:run.   W = working log of the base, I = INITIAL of the base,
    ht = HEAD tree, work/index = work tree and index at the time of the checkpoint *)
 
-CkFiles(W, I, ht, work, index, reported, pre) ==
+\* As built only files that differ from HEAD (git status) are looked at: a file that git put back to HEAD after an
+\* agent's checkpointed edit keeps its old snapshot, and the next checkpoint diffs against that stale snapshot
+\* (deviation "stale_entry_applied_by_line_number"; the repaired design refreshes such an entry).
+CkFiles(D, W, I, ht, work, index, reported, pre) ==
   LET trk == reported \cup { f \in File : I[f] # <<>> } \cup { f \in File : W.ent[f].has }
       untracked(f) == index[f] = EmptyC /\ ht[f] = EmptyC /\ work[f] # EmptyC
-      st  == { f \in File : (work[f] # ht[f] \/ index[f] # ht[f]) /\ ~(pre /\ ~WLai(W) /\ untracked(f)) }
+      stale(f) == "stale_entry_applied_by_line_number" \notin D /\ W.ent[f].has /\ W.ent[f].snap # work[f]
+      st  == { f \in File : (work[f] # ht[f] \/ index[f] # ht[f] \/ stale(f)) /\ ~(pre /\ ~WLai(W) /\ untracked(f)) }
   IN  IF trk = {} THEN st ELSE trk \cap st
 
 \* entry of file f after a checkpoint by author a (kind "ai" | "human"); result = prior means nothing written
@@ -261,8 +265,9 @@ CkEnt(D, prior, in0, isf, htf, cur, kind, a, pre) ==
                    ELSE mk(Transfer(D, htf, <<>>, cur, a))
 
 CkResult(D, W, I, IS, ht, work, index, kind, a, reported, pre) ==
-  LET skipAll == pre /\ ~WLai(W) /\ (\A f \in File : I[f] = <<>>)
-      fs  == CkFiles(W, I, ht, work, index, reported, pre)
+  \* (repaired, X19: entries that still carry AI lines count as AI state even when no AI checkpoint is in the log)
+  LET skipAll == pre /\ ~WLai(W) /\ (\A f \in File : I[f] = <<>>) /\ (\A f \in File : ~HasAI(W.ent[f].attr))
+      fs  == CkFiles(D, W, I, ht, work, index, reported, pre)
       ne  == [f \in File |-> IF f \in fs THEN CkEnt(D, W.ent[f], I[f], IS[f], ht[f], work[f], kind, a, pre)
                              ELSE W.ent[f]]
   IN  IF skipAll THEN W ELSE [ent |-> ne]
